@@ -8,7 +8,7 @@ import re
 import subprocess
 import sys
 
-REPO = "/repo"
+REPO = os.environ.get("VERIF_REPO", "/repo")
 HERE = os.path.dirname(os.path.dirname(os.path.abspath(__file__)))
 
 
